@@ -985,9 +985,25 @@ func ruleOU3(c *Ctx) {
 			}
 			// values are compared in the frame of the command: parameters of single-caller helpers are bound to their arguments
 			canonAt := func(v ssa.Value, fn *ssa.Function) string { return c.Prog.canonE(v, c.autoEnv(fn)) }
+			// a field computed inside a constructor helper (TS: formatTime(ts)) is read with the helper's parameters
+			// bound to what this site handed it
+			canonEm := func(v ssa.Value, ev *Emission) string {
+				if len(ev.Env) == 0 {
+					return canonAt(v, ev.Fn)
+				}
+				e := env{}
+				ae := c.autoEnv(ev.Fn)
+				for k, val := range ae {
+					e[k] = val
+				}
+				for k, val := range ev.Env {
+					e[k] = resolveEnv(val, ae)
+				}
+				return c.Prog.canonE(v, e)
+			}
 			chk := func(key string, evv ssa.Value, ev *Emission, what string) {
 				r := reply[key]
-				ok := r.v != nil && evv != nil && c.Prog.canonE(r.v, r.e) == canonAt(evv, ev.Fn)
+				ok := r.v != nil && evv != nil && (c.Prog.canonE(r.v, r.e) == canonAt(evv, ev.Fn) || c.Prog.canonE(r.v, r.e) == canonEm(evv, ev))
 				c.check(ok, c.Name(rco), "claim-reply|"+key, c.FnPos(rco), "reply["+key+"] is the committed "+what, "the claim reply's "+key+" is not the value committed in the "+what+": the agent is told it won something the store does not record")
 			}
 			chk("id", claimEv.Fields["ID"], claimEv, "claim event's ID")
